@@ -72,24 +72,57 @@ impl Kind {
     }
 }
 
-pub fn make_error(kind: Kind, id: u64) -> io::Error {
-    io::Error::new(kind.to_io(), SimFault { id })
+/// What an injected error carries. Errors made by the operating system have no
+/// custom payload (`from_raw_os_error`), errors made with `io::Error::from(kind)`
+/// carry nothing at all; a library that tells errors apart by their payload
+/// must be right for those too.
+#[derive(Debug, Clone, Copy, PartialEq, Eq, Serialize, Deserialize, PartialOrd, Ord, Default)]
+pub enum Payload {
+    /// `io::Error::new(kind, SimFault { id })`
+    #[default]
+    Custom,
+    /// `io::Error::from(kind)`
+    Bare,
+    /// `io::Error::from_raw_os_error(errno)`; the kind is whatever std derives
+    Os(i32),
 }
 
-/// Does this io::Error carry the injected fault `id` of kind `kind`?
-pub fn is_injected(err: &io::Error, kind: Kind, id: u64) -> bool {
-    err.kind() == kind.to_io()
-        && err
-            .get_ref()
-            .and_then(|inner| inner.downcast_ref::<SimFault>())
-            .map(|f| f.id == id)
-            .unwrap_or(false)
+pub const OS_CODES: [i32; 6] = [5, 11, 32, 104, 110, 28]; // EIO EAGAIN EPIPE ECONNRESET ETIMEDOUT ENOSPC
+
+pub fn make_error(kind: Kind, id: u64, payload: Payload) -> io::Error {
+    match payload {
+        Payload::Custom => io::Error::new(kind.to_io(), SimFault { id }),
+        Payload::Bare => io::Error::from(kind.to_io()),
+        Payload::Os(code) => io::Error::from_raw_os_error(code),
+    }
 }
 
-pub fn injected_id(err: &io::Error) -> Option<u64> {
-    err.get_ref()
-        .and_then(|inner| inner.downcast_ref::<SimFault>())
-        .map(|f| f.id)
+/// Payload cycled by a counter: half custom, a quarter bare, a quarter OS errors.
+pub fn payload_for(n: usize) -> Payload {
+    match n % 4 {
+        0 | 1 => Payload::Custom,
+        2 => Payload::Bare,
+        _ => Payload::Os(OS_CODES[(n / 4) % OS_CODES.len()]),
+    }
+}
+
+/// Is `err` the error injected by `f`? Custom payloads are identified by
+/// downcast, bare errors by kind and absence of any payload, OS errors by
+/// their raw code.
+pub fn is_fired(err: &io::Error, f: &Fired) -> bool {
+    let Some(kind) = f.hard else { return false };
+    match f.payload {
+        Payload::Custom => {
+            err.kind() == kind.to_io() && err.get_ref().and_then(|i| i.downcast_ref::<SimFault>()).map(|x| x.id == f.id).unwrap_or(false)
+        }
+        Payload::Bare => err.kind() == kind.to_io() && err.get_ref().is_none() && err.raw_os_error().is_none(),
+        Payload::Os(code) => err.raw_os_error() == Some(code),
+    }
+}
+
+/// The id of the fired fault that `err` is, if any.
+pub fn fired_id(err: &io::Error, fired: &[Fired]) -> Option<u64> {
+    fired.iter().find(|f| is_fired(err, f)).map(|f| f.id)
 }
 
 // ---------------------------------------------------------------------------
@@ -109,6 +142,8 @@ pub struct ReadFault {
     pub kind: ReadFaultKind,
     pub sticky: bool,
     pub id: u64,
+    #[serde(default)]
+    pub payload: Payload,
 }
 
 #[derive(Debug, Clone, PartialEq, Eq, Serialize, Deserialize)]
@@ -159,6 +194,7 @@ pub struct Fired {
     pub at: usize,
     pub hard: Option<Kind>,
     pub call: u64,
+    pub payload: Payload,
 }
 
 /// State of a scripted reader that the harness can look at while the parser
@@ -294,14 +330,16 @@ impl<'a> io::Read for SimReader<'a> {
                 ReadFaultKind::Hard(k) => Some(k),
                 ReadFaultKind::Eof => None,
             };
+            let payload = fault.payload;
             self.shared.fired.borrow_mut().push(Fired {
                 id: fault.id,
                 at: abs,
                 hard,
                 call,
+                payload,
             });
             return match hard {
-                Some(k) => Err(make_error(k, fault.id)),
+                Some(k) => Err(make_error(k, fault.id, payload)),
                 None => Ok(0),
             };
         }
@@ -378,6 +416,8 @@ pub struct WriteFault {
     pub kind: WriteFaultKind,
     pub sticky: bool,
     pub id: u64,
+    #[serde(default)]
+    pub payload: Payload,
 }
 
 #[derive(Debug, Clone, PartialEq, Eq, Serialize, Deserialize)]
@@ -417,7 +457,7 @@ impl WritePlan {
 pub enum WriteAnswer {
     Accepted(usize),
     Interrupted,
-    Hard(Kind, u64),
+    Hard(Kind, u64, Payload),
     Zero,
 }
 
@@ -508,16 +548,18 @@ impl io::Write for SimWriter {
                 WriteFaultKind::Hard(k) => Some(k),
                 WriteFaultKind::Zero => None,
             };
+            let payload = fault.payload;
             self.fired.push(Fired {
                 id: fault.id,
                 at,
                 hard,
                 call,
+                payload,
             });
             return match hard {
                 Some(k) => {
-                    self.last_answer = Some(WriteAnswer::Hard(k, fault.id));
-                    Err(make_error(k, fault.id))
+                    self.last_answer = Some(WriteAnswer::Hard(k, fault.id, payload));
+                    Err(make_error(k, fault.id, payload))
                 }
                 None => {
                     self.last_answer = Some(WriteAnswer::Zero);
